@@ -5,6 +5,7 @@ go 1.21
 require (
 	aead.dev/minisign v0.3.0
 	github.com/ProtonMail/go-crypto v1.0.0
+	github.com/ProtonMail/gopenpgp/v2 v2.7.5
 	github.com/anishathalye/porcupine v1.3.0
 	github.com/fclairamb/go-log v0.5.0
 	github.com/pojntfx/stfs v0.0.0
@@ -15,7 +16,6 @@ require (
 require (
 	filippo.io/age v1.2.0 // indirect
 	github.com/ProtonMail/go-mime v0.0.0-20230322103455-7d82a3887f2f // indirect
-	github.com/ProtonMail/gopenpgp/v2 v2.7.5 // indirect
 	github.com/andybalholm/brotli v1.1.0 // indirect
 	github.com/cloudflare/circl v1.3.9 // indirect
 	github.com/cosnicolaou/pbzip2 v1.0.3 // indirect
